@@ -63,6 +63,7 @@ var sdScenarios = []sdScenario{
 	{Name: "group-idle-member", Component: "group", Variant: "idle-member", KMax: 120},
 	{Name: "group-offset-fetch-fails", Component: "group", Variant: "offset-fetch-fails", KMax: 80},
 	{Name: "group-coordinator-lost", Component: "group", Variant: "coordinator-lost", KMax: 60},
+	{Name: "group-heartbeats-die", Component: "group", Variant: "heartbeats-die", KMax: 200},
 	{Name: "om-mid-commit", Component: "om", Variant: "slow-commit", KMax: 80},
 	{Name: "om-errors", Component: "om", Variant: "errors", KMax: 80},
 	{Name: "om-manual-commit", Component: "om", Variant: "manual-commit", KMax: 80},
@@ -771,6 +772,13 @@ func sdGroup(r *sdRun, rng *rand.Rand) {
 			if ctx.Kind == "find-coordinator" && atomic.AddInt32(&nSync, 1) > 1 {
 				return sarama.VSimGroupAction{Kind: sarama.VGDropBefore}
 			}
+		case "heartbeats-die":
+			// the session is established, then the coordinator stops answering heartbeats: every one of
+			// them dies with its connection while the client still knows (from its cache) who the
+			// coordinator is. The session gives up after the retry budget and the next one starts the same way.
+			if ctx.Kind == "heartbeat" && atomic.AddInt32(&nSync, 1) > 2 {
+				return sarama.VSimGroupAction{Kind: sarama.VGDropBefore}
+			}
 		case "offset-fetch-fails":
 			// the first two sessions die while they are being set up: the initial
 			// offset of a claim cannot be fetched (not retriable)
@@ -797,7 +805,7 @@ func sdGroup(r *sdRun, rng *rand.Rand) {
 		conf.Consumer.Offsets.Initial = sarama.OffsetOldest
 		conf.Consumer.MaxWaitTime = 5 * time.Millisecond
 		conf.Consumer.Retry.Backoff = time.Millisecond
-		if r.sc.Variant == "unreachable" || r.sc.Variant == "coordinator-lost" {
+		if r.sc.Variant == "unreachable" || r.sc.Variant == "coordinator-lost" || r.sc.Variant == "heartbeats-die" {
 			conf.Metadata.Retry.Max = 1
 			conf.Metadata.Retry.Backoff = 5 * time.Millisecond
 		}
